@@ -281,6 +281,13 @@ def c16(tier, seed):
     ]
     scns += C.unweighted(scns[:2])
     scns += C.fractional(scns[:3])
+    # quarters: an item's eligible base can fall below one respondent's worth of weight
+    scns += C.fractional([scns[3], scns[4]], wden=4, weights=(1, 2, 5))
+    # a numeric-measure response: the counts are the (weighted) valid counts
+    scns.append(scenario("cat_x_cat_y", [cat("A", 3, miss=[2]), cat("B", 3, miss=[1])], yvals=(0, 2),
+                         ymeasures=("mean",), valid_counts=True))
+    scns.append(scenario("cat_x_mr_y", [cat("A", 2), mr("B", 2)], yvals=(0, 2),
+                         ymeasures=("mean",), valid_counts=True))
     scns += _with_insertions([scenario("cat_x_cat.ins", [cat("A", 3), cat("B", 3, miss=[2])])],
                              6 if tier == "quick" else 30, seed)
     scns += _with_order_configs([scenario("cat_x_mr.hide", [cat("A", 3, miss=[3]), mr("B", 2)]),
@@ -305,6 +312,7 @@ def c17(tier, seed):
         ("mr_x_cat", [mr("A", 2), cat("B", 2)]),
         ("mr_x_catdate", [mr("A", 2), cat("B", 2, date=True)]),
         ("catdate_x_catdate", [cat("A", 2, date=True), cat("B", 3, miss=[2], date=True)]),
+        ("catdate_x_mr", [cat("A", 2, date=True), mr("B", 2)]),
         ("cat_1d", [cat("A", 3, miss=[2])]),
         ("catdate_1d", [cat("A", 3, date=True)]),
         ("mr_1d", [mr("A", 2)]),
@@ -318,6 +326,9 @@ def c17(tier, seed):
         {"style": "old", "fn": 2, "un": 0},
         {"style": "old", "fn": None, "un": 4},
         {"style": "old", "fn": 3, "un": 5, "null_new": True},
+        # the categorical-date flag without complete-case statistics does not apply
+        {"style": "old", "fn": 1, "un": 4, "catdate": True},
+        {"style": "old", "fn": 3, "un": 0, "catdate": True, "null_new": True},
     ]
     pops = [1000, 0, None, 1, 7]
     scns = []
